@@ -47,14 +47,19 @@ def run_one(prop, tier, base_seed, index):
     """Generate and execute plan `index`. Returns a summary dict."""
     seed = kernel.derive_seed(base_seed, prop.ID, index)
     rng = random.Random(seed)
-    plan = prop.generate(rng, tier, index)
+    if index < 0:
+        # directed plans: fixed regression scenarios (known findings,
+        # repaired defects) that every run executes besides the seeded ones
+        plan = prop.directed(tier)[-index - 1]
+    else:
+        plan = prop.generate(rng, tier, index)
     plan = jsonable(plan)
     res = prop.execute(plan)
     res['index'] = index
     res['seed'] = seed
     if res.get('violations'):
         res['plan'] = plan
-    elif index < 3:
+    elif 0 <= index < 3:
         res['plan_sample'] = plan
     return res
 
@@ -395,7 +400,7 @@ def determinism_check(pid, tier, base_seed, indices, workers):
     env['VERIF_SEED'] = str(base_seed)
     p = subprocess.run(
         [sys.executable, os.path.join(VERIF, 'sim', 'main.py'), pid,
-         '--digests', ','.join(map(str, indices)), '--tier', tier,
+         '--digests=' + ','.join(map(str, indices)), '--tier', tier,
          '--workers', str(max(1, workers))],
         stdout=subprocess.PIPE, stderr=subprocess.PIPE, env=env,
         timeout=3600)
@@ -417,9 +422,11 @@ def main_check(pid, tier, base_seed, workers, log=print):
     pre = getattr(prop, 'prepare', None)
     if pre is not None:
         pre(tier)
-    results, skipped = run_indices(pid, tier, base_seed, range(n), workers,
-                                   budget,
-                                   chunk=getattr(prop, 'CHUNK', 8))
+    ndirected = len(prop.directed(tier)) if hasattr(prop, 'directed') else 0
+    results, skipped = run_indices(
+        pid, tier, base_seed,
+        list(range(-ndirected, 0)) + list(range(n)), workers, budget,
+        chunk=getattr(prop, 'CHUNK', 8))
     herr = [r for r in results if 'harness_error' in r]
     extra = {'coverage': {}}
     # determinism: a sample of indices re-executed in a fresh interpreter
